@@ -20,6 +20,7 @@
 #include <tlx/math/rol.hpp>
 #include <cstdint>
 #include <cstdlib>
+#include <cstring>
 
 #if defined(_MSC_VER)
 
@@ -46,8 +47,11 @@ static inline std::uint64_t siphash_plain(const std::uint8_t key[16],
     std::uint64_t last7;
     size_t i, blocks;
 
-    k0 = bswap64_le(*reinterpret_cast<const std::uint64_t*>(key + 0));
-    k1 = bswap64_le(*reinterpret_cast<const std::uint64_t*>(key + 8));
+    // key and message need not be 8-byte aligned: load via memcpy
+    std::memcpy(&k0, key + 0, 8);
+    std::memcpy(&k1, key + 8, 8);
+    k0 = bswap64_le(k0);
+    k1 = bswap64_le(k1);
     v0 = k0 ^ 0x736f6d6570736575ULL;
     v1 = k1 ^ 0x646f72616e646f6dULL;
     v2 = k0 ^ 0x6c7967656e657261ULL;
@@ -73,7 +77,8 @@ static inline std::uint64_t siphash_plain(const std::uint8_t key[16],
 
     for (i = 0, blocks = (len & ~7); i < blocks; i += 8)
     {
-        mi = bswap64_le(*reinterpret_cast<const std::uint64_t*>(m + i));
+        std::memcpy(&mi, m + i, 8);
+        mi = bswap64_le(mi);
         v3 ^= mi;
         TLX_SIPCOMPRESS();
         TLX_SIPCOMPRESS();
